@@ -4,7 +4,8 @@ Byte strings are hex, the empty string is `-`.
 
   reset
   write <metric> <key>=<value> ...                 -> series <id> new|old
-  prepare-meta | flush-meta | compact-meta | prepare-index | flush-index | compact-index -> ok
+  prepare-meta | flush-meta | compact-meta -> ok tv=<level-0 files>
+  prepare-index | flush-index | compact-index -> ok inv=<level-0 files> fwd=<level-0 files>
   rx <pattern> ok|bad <literalPrefix> <matching value> ...   (one row of the regexp table) -> ok
   q <metric> <groupKey,groupKey|-> <cond>          -> ok s=<ids> g=<groups> | err <kind> | panic
       cond (prefix form): eq K V | in K n V1..Vn | like K V | rx K P | not C | paren C | and C C | or C C | badop C C
@@ -24,7 +25,8 @@ def flags : Flags :=
   { keyByRewrite := Generated.C10.keyByRewrite
     likeStarGuarded := Generated.C10.likeStarGuarded
     rxLitPrefix := Generated.C10.rxLitPrefix
-    lutCumulative := Generated.C10.lutCumulative }
+    lutCumulative := Generated.C10.lutCumulative
+    prepareOnEmpty := Generated.C10.prepareOnEmpty }
 
 def hexVal (c : Char) : Option Nat :=
   if '0' ≤ c ∧ c ≤ '9' then some (c.toNat - '0'.toNat)
@@ -171,8 +173,13 @@ def fileOf (es : List (Nat × Nat)) : List Container :=
   | (_, cs) :: _ => cs
   | [] => []
 
+/-- placement ops answer with the number of level-0 files of the stores they touch -/
 def placement (d : DSt) (s : Step) : DSt × String :=
-  ({ d with st := d.st.step flags s }, "ok")
+  let st' := d.st.step flags s
+  let out := match s with
+    | .prepareMeta | .flushMeta | .compactMeta => s!"ok tv={st'.dict.l0.length}"
+    | _ => s!"ok inv={st'.inv.l0.length} fwd={st'.fwd.l0.length}"
+  ({ d with st := st' }, out)
 
 def step (d : DSt) (ws : List String) : DSt × String :=
   match ws with
